@@ -77,6 +77,7 @@ def translate():
     scale = "ifmax_pos>1ormin_pos<0:scale_cell=True" in src
     loop = "indices-=tested_indices" in src and "indices-=i_indices" in src and "i_indices={i_seed}" in src \
         and "i_indices.update(i_grain.get_basis_indices())" in src
+    dist_radii = "distances=matid.geometry.get_distances(system_copy,radii)" in src and "radii=matid.geometry.get_radii(radii,atomic_numbers)" in src
     ctor = []
     for n in ast.walk(tree):
         if isinstance(n, ast.Call) and isinstance(n.func, ast.Name) and n.func.id == "Cluster":
@@ -96,7 +97,7 @@ def translate():
             top |= set(_self_attr_targets(st))
     cond = sorted(set(_self_attr_targets(gr[0])) - top)
     return {"order": order, "returns": returns == last_var, "zero_row": zero_row, "zero_raise": zero_raise, "scale": scale, "loop": loop,
-            "ctor": ctor, "sbc_fields": sbc_fields, "sbc_init": "__init__" in fns, "finder_cond": cond}
+            "ctor": ctor, "dist_radii": dist_radii, "sbc_fields": sbc_fields, "sbc_init": "__init__" in fns, "finder_cond": cond}
 
 
 def generate(out=None):
@@ -112,6 +113,8 @@ def generate(out=None):
                       "def zeroPbcRaises : Bool := " + b(r["zero_raise"]),
                       "def scaleCond : Bool := " + b(r["scale"]),
                       "def loopRemovesTested : Bool := " + b(r["loop"]),
+                      "/-- the shared distance information is computed with the resolved clustering radii -/",
+                      "def distancesUseRadii : Bool := " + b(r["dist_radii"]),
                       "def ctorKeywords : List (List String) := [" + ", ".join(q(k) for k in r["ctor"]) + "]",
                       "def sbcSelfFields : List String := " + q(r["sbc_fields"]),
                       "def sbcHasInit : Bool := " + b(r["sbc_init"]),
